@@ -534,3 +534,46 @@ Proof.
   apply typed_ok_valid; [|apply Ht, Hin|exact Hty].
   apply Hb. apply in_map. exact Hin.
 Qed.
+
+(* ---------- C15: what GetMessage reports, apart from the times, does not depend on the handler ---------- *)
+
+(* everything a message carries except the UTC time and the start of week *)
+Definition msg_core (m : msg) : Z * list N * option err * option err * N * bool :=
+  (mtype m, raw m, merr m, memsg m, mts m, match msent m with Some (Ok _) => true | _ => false end).
+
+Definition result_core (r : res (option msg * hstate)) : res (option (Z * list N * option err * option err * N * bool)) :=
+  match r with
+  | Ok (Some m, _) => Ok (Some (msg_core m))
+  | Ok (None, _) => Ok None
+  | Err e => Err e
+  | Panic => Panic
+  end.
+
+Definition time_kind (t : res Z) : res unit :=
+  match t with Ok _ => Ok tt | Err e => Err e | Panic => Panic end.
+
+Lemma time_kind_state_independent h1 h2 ty ts :
+  time_kind (fst (time_from_timestamp h1 ty ts)) = time_kind (fst (time_from_timestamp h2 ty ts)).
+Proof.
+  unfold time_from_timestamp, utc_from_timestamp, parse_glonass.
+  destruct (constellation_of ty) as [[| | |]|]; cbn; try reflexivity;
+    repeat match goal with |- context [if ?c then _ else _] => destruct c end; reflexivity.
+Qed.
+
+Theorem get_message_state_independent h1 h2 b :
+  result_core (get_message h1 b) = result_core (get_message h2 b).
+Proof.
+  unfold get_message. destruct b as [|b0 b']; [reflexivity|].
+  destruct (negb (b0 =? D3)); [reflexivity|].
+  destruct (get_len_type (b0 :: b')) as [[[len ty]|e|]|[ty e]]; try reflexivity.
+  destruct (_ <? _)%nat; [reflexivity|].
+  destruct (check_crc _); [reflexivity|].
+  destruct (msmb ty); [|reflexivity].
+  destruct (_ <? _); [reflexivity|].
+  destruct (get_u _ _ _) as [ts| |]; cbn [bind]; try reflexivity.
+  pose proof (time_kind_state_independent h1 h2 ty ts) as K.
+  destruct (time_from_timestamp h1 ty ts) as [t1 h1'].
+  destruct (time_from_timestamp h2 ty ts) as [t2 h2']. cbn [fst] in K.
+  destruct t1, t2; cbn in K; try discriminate; try reflexivity.
+  injection K as <-. reflexivity.
+Qed.
